@@ -474,7 +474,14 @@ func (p *Parser) collectSpecs(
 	return nil
 }
 
-var importStmtPrefix = []byte("import ")
+var importKeyword = []byte("import")
+
+// isImportLine tells whether a line is an import statement: the keyword followed by white space, which for
+// the lexer (IMPORT: 'import' WS, WS: [ \t]+) is a space or a tab.
+func isImportLine(line []byte) bool {
+	return bytes.HasPrefix(line, importKeyword) && len(line) > len(importKeyword) &&
+		(line[len(importKeyword)] == ' ' || line[len(importKeyword)] == '\t')
+}
 
 func extractImports(filename string, content []byte) (importsInput bytes.Buffer) {
 	// non-sysl specs remote reference file fetching is not yet supported.
@@ -485,7 +492,7 @@ func extractImports(filename string, content []byte) (importsInput bytes.Buffer)
 	scanner := bufio.NewScanner(bytes.NewReader(content))
 	scanner.Split(bufio.ScanLines)
 	for scanner.Scan() {
-		if bytes.HasPrefix(scanner.Bytes(), importStmtPrefix) {
+		if isImportLine(scanner.Bytes()) {
 			importsInput.Write(scanner.Bytes())
 			importsInput.WriteByte('\n')
 		}
